@@ -657,7 +657,7 @@ def _dominated_by_clean_fill(fn, idom, bi, crate):
         names = F.callee_names(t)
         if p in CLEAN_FILLS and t["arg_tys"] and "Vec<u8>" in t["arg_tys"][0]:
             return _no_dirty_between(fn, defs, d, bi, crate), "after scratch.clear()"
-        if "parse::read::decode_utf8_sequence" in names:
+        if any(n.startswith("parse::") and n.endswith("::decode_utf8_sequence") for n in names):
             return _no_dirty_between(fn, defs, d, bi, crate), "after decode_utf8_sequence(..)?"
     return False, "no dominating scratch.clear()"
 
